@@ -70,7 +70,7 @@ def run_C18(ctx):
 def run_C10(ctx):
     quick = ctx.tier == "quick"
     apalache_timeout(ctx)
-    scalars(ctx, {"timeout", "deadline_e2e", "nodeadline_e2e"}, [dict(op="sweep_timeout", n=200000 if quick else 20000000)])
+    scalars(ctx, {"timeout", "deadline_e2e", "nodeadline_e2e", "deadline_wait"}, [dict(op="sweep_timeout", n=200000 if quick else 20000000)])
     # handler half: every timeout header string of the design check served by the real handler
     core.design_check(ctx, "MC_Serve", "MC_Serve.cfg")
     scen = [s for s in core.generate(ctx, "MC_Serve", "Gen_Serve.cfg", tag="genserve")["scenarios"]
